@@ -71,7 +71,7 @@ PROPERTIES = {
                                  'probe.restart_reopened_while_other_alive', 'probe.short_write_split_jobfile', 'probe.maxjobs_reached',
                                  'probe.sync_without_new_job', 'fault.kill_in_write_jobfile', 'fault.kill_in_write_backup',
                                  'fault.kill_at_fopen', 'fault.kill_at_funlock', 'fault.kill_at_mutex', 'fault.stall', 'fault.sigterm_default_action',
-                                 'probe.alloc_points_enabled', 'probe.nested_output_published', 'probe.nested_output_rewritten_by_other_process']},
+                                 'probe.alloc_points_enabled', 'probe.nested_output_published', 'probe.sweeper_killed', 'probe.restart_process_killed', 'probe.nested_output_rewritten_by_other_process']},
             # crash-point enumeration: one "run" is a small base plan plus one sub-run per crash point along its schedule
             {'name': 'c10_jobs', 'label': 'c10_jobs/enum', 'engine_tier': 'enum', 'quick': 48, 'thorough': 6000, 'san': 0, 'chunk': 1, 'det_sample': 2,
              'required_probes': ['enum.crash_points', 'enum.kill_inside_write', 'probe.jobfile_torn_by_kill', 'probe.operator_restored_backup']},
